@@ -81,6 +81,27 @@ def classify(ctx, T, m, al, memo):
         ctx.hit("blockless-alias-of-a-decaying-particle-as-daughter")
 
 
+class _RaisingNames(list):
+    """The caller's own collection of stable names, whose membership test / iteration fails after a few uses (a lazily loaded list, a broken proxy)."""
+
+    def __init__(self, names_, uses):
+        super().__init__(names_)
+        self.left = uses
+
+    def _use(self):
+        self.left -= 1
+        if self.left < 0:
+            raise OSError("harness: the collection of stable names failed while it was read")
+
+    def __contains__(self, x):
+        self._use()
+        return super().__contains__(x)
+
+    def __iter__(self):
+        self._use()
+        return super().__iter__()
+
+
 def check(ctx, p, T, m, al, wit, workload):
     memo = {}
     _, count = chains.ref_sizes(T, m, memo)
@@ -97,6 +118,29 @@ def check(ctx, p, T, m, al, wit, workload):
             w["before"] = ["build_decay_chains", m, S]
             ctx.hit("expand-after-chains-with-stable-set")
             ctx.guard("chain-before-expand", w, p.build_decay_chains, m, S)
+            contracts.drain()
+    if ctx.rng.random() < 0.2:
+        # earlier on the same object a chain query with a stable set went wrong: refused (unknown mother), abandoned at a random line of the library's
+        # code, or stopped by the caller's own iterable of stable names raising while it was read
+        below = sorted({x for ln in T[m] for y in ln["fs"] if y in T for x in [y, *[z for l2 in T[y] for z in l2["fs"] if z in T]]})
+        if below:
+            S = ctx.rng.sample(below, min(len(below), ctx.rng.choice([1, 2, 3])))
+            how = ctx.rng.choice(["refused", "abandoned", "iterable-raises"])
+            ctx.hit("expand-after-a-chain-query-with-a-stable-set-that-went-wrong:" + how)
+            w["earlier_call_went_wrong"] = [how, S]
+            try:
+                if how == "refused":
+                    p.build_decay_chains("NoSuchParticle", stable_particles=S)
+                elif how == "abandoned":
+                    from .. import trace  # noqa: PLC0415
+
+                    fp = trace.Failpoint.get()
+                    _, n = fp.count(p.build_decay_chains, m, S)
+                    fp.inject(ctx.rng.randint(1, max(1, n)), p.build_decay_chains, m, S)
+                else:
+                    p.build_decay_chains(m, stable_particles=_RaisingNames(S, ctx.rng.randint(1, 6)))
+            except Exception:  # noqa: BLE001, S110   what the earlier call raised is not judged
+                pass
             contracts.drain()
     if ctx.rng.random() < 0.3:
         # the caller has edited what earlier queries returned (alias dictionary, mode lists, chains): the expansion is still the file's
